@@ -47,6 +47,8 @@ def swarm(rng, tier: str, *, profile: str = "edit") -> dict:
         "quoted": on(0.15, 0.4),
         "refs": on(0.0, 0.0) if profile != "refs" else True,
         "rich_values": on(0.3, 0.6),
+        # equal values on purpose: bindings that compare equal (same leaf name, value and trivia) in one document
+        "dup_values": on(0.25, 0.3),
         "lambda": on(0.35, 0.45),
         "with": on(0.2, 0.35),
         "assert": on(0.1, 0.25),
@@ -74,6 +76,8 @@ class DocGen:
 
     # -- values ---------------------------------------------------------
     def literal(self) -> str:
+        if self.cfg.get("dup_values"):
+            return self.rng.choice(["true", "true", "1", '"x"'])
         self.counter += 1
         base = (self.docnum % 900 + 100) * 100 + self.counter
         r = self.rng.random()
@@ -304,7 +308,8 @@ def npath(depth: int, segs) -> str:
     return "@" * depth + ".".join(fmt_name(s) for s in segs)
 
 
-BAD_PATHS = ["", "a..b", ".a", "a.", '"open', 'a."b"c', "a.b$", "@", "@@", "a b", "-x", 'a"b"', "a.b c"]
+BAD_PATHS = ["", "a..b", ".a", "a.", '"open', "a.b$", "@", "@@", "a b", "-x", 'a"b"', "a.b c",
+             "@a..b", "@.a", "@a.", '@"open', "@a.b$", "@@a..b", "@a b", '@a"b"', "@@.a", "@@@"]
 BAD_VALUES = ["", "1 2", "{ a = ; }", "[ 1", "}", "1;", "# only a comment", "let x = 1; in", '"unterminated']
 
 
@@ -318,6 +323,8 @@ class OpGen:
         self.n = 0
 
     def fresh_value(self) -> str:
+        if self.cfg.get("dup_values") and self.rng.random() < 0.7:
+            return self.rng.choice(["true", "true", "1", '"x"'])
         self.n += 1
         base = self.tag * 1000 + self.n
         r = self.rng.random()
